@@ -157,6 +157,12 @@ func c12Cases(run *vx.Run) []c12Case {
 		{"tiles-400x300", repetitive(0, 400, 300)},
 		{"rows-400x300", repetitive(1, 400, 300)},
 		{"blocks-400x300", repetitive(2, 400, 300)},
+		// short and wide / tall and narrow pictures above the parallel thresholds: every row- or tile-row-partitioned
+		// section gets fewer items than workers, worker boundaries fall inside tiles and inside the padding rows
+		{"banner-1280x100", photo(1280, 100)},
+		{"short-640x98", graded(640, 98)},
+		{"strip-9000x13", photo(9000, 13)},
+		{"tall-66x1024", graded(66, 1024)},
 		{"graded-200x150", graded(200, 150)},
 		{"graded-333x247", graded(333, 247)},
 		{"noise-400x293", noiseNRGBA(rng, 400, 293, 0)},
